@@ -624,11 +624,12 @@ static Json gen_hdr(Rng &r0, const std::string &focus, int tier)
         Json gz = Json::obj();
         static const uint32_t xl[] = { 0, 1, 2, 255, 256, 65535, 65534, 1000 };
         static const uint32_t sl[] = { 0, 1, 2, 7, 8, 9, 255, 256, 2999 };
-        gz.set("flags", r.chance(1, 8) ? 0 : r.chance(1, 4) ? 31 : (int) r.below(32)).set("mtime", r.chance(1, 2) ? 0x11223344u : r.u32()).set("xfl", (int) r.below(256)).set("os", (int) r.below(256)).set("s", r.u64() >> 20);
+        static const uint32_t edge32[] = { 0, 1, 0xffffffffu, 0x80000000u, 0x00010000u, 0x000000ffu, 0xff000000u };
+        gz.set("flags", r.chance(1, 8) ? 0 : r.chance(1, 4) ? 31 : (int) r.below(32)).set("mtime", r.chance(1, 2) ? 0x11223344u : r.chance(1, 3) ? r.pick(edge32) : r.u32()).set("xfl", r.chance(1, 6) ? (r.chance(1, 2) ? 0 : 255) : (int) r.below(256)).set("os", r.chance(1, 6) ? (r.chance(1, 2) ? 0 : 255) : (int) r.below(256)).set("s", r.u64() >> 20);
         gz.set("xlen", r.chance(1, 2) ? r.pick(xl) : (uint32_t) r.logsize(65535)).set("nlen", r.chance(1, 2) ? r.pick(sl) : (uint32_t) r.logsize(2999)).set("clen", r.chance(1, 2) ? r.pick(sl) : (uint32_t) r.logsize(2999));
         p.set("gz", gz);
         Json zl = Json::obj();
-        zl.set("info", (int) r.below(8)).set("level", (int) r.below(4)).set("fdict", (int) r.below(2)).set("dictid", r.chance(1, 2) ? 0x11223344u : r.u32());
+        zl.set("info", (int) r.below(8)).set("level", (int) r.below(4)).set("fdict", (int) r.below(2)).set("dictid", r.chance(1, 2) ? 0x11223344u : r.chance(1, 2) ? r.pick(edge32) : r.u32());
         p.set("zl", zl);
         int64_t delta;
         uint64_t c = r.below(10);
